@@ -19,6 +19,15 @@ numpy's `astype`, `can_cast(safe)` and `result_type` are compared with the model
 `canCastSafe`, `resultKind` on a value sweep / the whole dtype table (model validation).
 The x64 flag is observed before/after real `allclose` / `to_onnx` calls whose `fn` raises or
 toggles the flag, and compared with `xrun`.
+
+Round 2: exits are three-valued (normal / Exception / BaseException outside Exception): fn raises
+KeyboardInterrupt / SystemExit / GeneratorExit / a custom BaseException, and a BaseException is injected at
+every call boundary of the jax2onnx functions reachable from user_interface (`Injector`).  T-tie: numpy's
+promotion table and the operand dtypes of the live comparison are regenerated into Gen/C18.lean and proved
+equal to the model (GenProps/C18.lean); Props/C18Promo.lean and Props/C18Float.lean prove the cross-dtype
+case at full strength on the exact integer rows and the float x float rows.  Feed construction: `bindFeeds`
+/ `coerce` (Model), `feeds_sound` (Props/C18Feed.lean), tied by recording the feed dict ONNX Runtime's
+`InferenceSession.run` receives from the real allclose on generated identity models.
 """
 from __future__ import annotations
 
@@ -54,10 +63,21 @@ META = {
                   "w1_fixed..w5_fixed (the five witnesses of the repaired cast-before-compare defect match under "
                   "the pre-fix decision and are mismatches now), modulusLe_iff_real, tmp_restores / "
                   "x64_restored_allclose / x64_restored_to_onnx / x64_history_restored (all bodies, nestings, "
-                  "exception points, histories).",
+                  "exception points, histories). Round 2: x64_restored_every_exit / x64_restored_under_injection (every "
+                  "exit incl. BaseException, an interrupt before every step), tmpExcOnly_not_restoring (refuted variant); "
+                  "promoTable_eq_model / operandTable_eq_model (numpy's promotion table and the live code's operand "
+                  "dtypes, regenerated every run, ARE the model's); allclose_sound_int_promotion and "
+                  "allclose_sound_float_widening (cross-dtype soundness at FULL strength on the 73 exact integer rows and "
+                  "the 9 float x float rows, all well-typed values), allclose_sound_exact_rows (the same on ALL 124 of the "
+                  "144 non-complex rows that do not bring a 64-bit integer to float64; roundFmt_widen, "
+                  "roundFmt_int_exact), promotion_lossy_rows_refuted; feeds_sound / "
+                  "feeds_eq_fnArgs_of_same_kinds (the feeds given to ORT are fn's arguments: names, order, values), "
+                  "feeds_eq_fnArgs_refuted (coerced feed).",
     "level_note": "Since fix 61b87cb the only hypothesis left for mixed dtypes is that numpy's own promotion "
                   "(can_cast 'safe' / result_type) is lossless; it fails only for 64-bit integers above 2^53 that "
-                  "numpy promotes to float64 (known finding F-C18-int64-promotion, needs tolerances near 0). "
+                  "numpy promotes to float64 (known finding F-C18-int64-promotion, needs tolerances near 0); rows with a "
+                  "complex side still use that hypothesis. Inputs are "
+                  "cast to the graph input dtype before they are fed (F-C18-coerced-feed-*). "
                   "Trusted: Lean kernel + 3 standard axioms; the hand-written model of numpy "
                   "astype/can_cast/result_type/isclose (validated each run against numpy on a value sweep, the "
                   "whole dtype table, and against the real allclose on the generated cases; floating-point "
@@ -68,7 +88,7 @@ META = {
     "design_ref": "DESIGN.md §3 C18",
 }
 
-MODS = ["J2O.Props.C18", "J2O.Lemmas.C18Real"]
+MODS = ["J2O.Props.C18", "J2O.Lemmas.C18Real", "J2O.Props.C18Feed"]
 
 NP = {
     "bool": np.bool_, "i8": np.int8, "i16": np.int16, "i32": np.int32, "i64": np.int64,
@@ -637,30 +657,58 @@ def cast_sweep(chk: Check, rng: common.Rng, thorough: bool):
 # ----------------------------------------------------------------------------- x64 flag
 
 
+class C18Abort(BaseException):
+    """a BaseException outside Exception that is none of the builtin ones (cf. pytest's outcome exceptions)"""
+
+
+EXC = {"RuntimeError": RuntimeError, "ValueError": ValueError, "KeyboardInterrupt": KeyboardInterrupt,
+       "SystemExit": SystemExit, "GeneratorExit": GeneratorExit, "C18Abort": C18Abort}
+BASE_EXC = ["KeyboardInterrupt", "SystemExit", "GeneratorExit", "C18Abort"]
+
+
+def exit_kind(e: Optional[BaseException]) -> str:
+    if e is None:
+        return "normal"
+    return "exc" if isinstance(e, Exception) else "base"
+
+
 def x64_cases(rng: common.Rng, thorough: bool) -> list[dict]:
+    """`at: fn` cases: the event (raise of every exception class incl. BaseException subclasses, flag
+    toggles, both) happens while `fn` is evaluated / traced; `ort_fail`: ORT cannot open the file."""
     out = []
-    bodies = ["ok", "raise", "toggle", "toggle_raise", "set_same", "ort_fail"]
     for flag in (False, True):
         for en in (False, True):
-            for body in bodies:
-                out.append({"api": "allclose", "flag": flag, "en": en, "body": body})
+            for body in ["ok", "toggle", "set_same", "ort_fail"]:
+                out.append({"api": "allclose", "flag": flag, "en": en, "body": body, "exc": None, "at": "fn"})
+            for body in ["raise", "toggle_raise"]:
+                for exc in ["RuntimeError"] + BASE_EXC:
+                    out.append({"api": "allclose", "flag": flag, "en": en, "body": body, "exc": exc, "at": "fn"})
     for flag in (False, True):
         for en in (False, True):
-            for body in (["ok", "raise", "toggle_raise"] if not thorough else ["ok", "raise", "toggle", "toggle_raise"]):
-                out.append({"api": "to_onnx", "flag": flag, "en": en, "body": body})
+            out.append({"api": "to_onnx", "flag": flag, "en": en, "body": "ok", "exc": None, "at": "fn"})
+            if thorough:
+                out.append({"api": "to_onnx", "flag": flag, "en": en, "body": "toggle", "exc": None, "at": "fn"})
+            classes = ["RuntimeError"] + (BASE_EXC if (thorough or flag != en) else [rng.choice(BASE_EXC)])
+            for k, exc in enumerate(classes):
+                body = "raise" if (k % 2 == 0 or thorough) else "toggle_raise"
+                out.append({"api": "to_onnx", "flag": flag, "en": en, "body": body, "exc": exc, "at": "fn"})
+                if thorough:
+                    out.append({"api": "to_onnx", "flag": flag, "en": en, "body": "toggle_raise", "exc": exc, "at": "fn"})
     return out
 
 
 def x64_prog(case: dict) -> dict:
     flag, en, body = case["flag"], case["en"], case["body"]
     inside = en  # the flag value seen by the body
-    skip, rz = {"t": "skip"}, {"t": "raise"}
-    b = {"ok": skip, "raise": rz, "ort_fail": rz,
+    skip = {"t": "skip"}
+    rz = {"t": "raise"} if (case.get("exc") is None or issubclass(EXC[case["exc"]], Exception)) else {"t": "raiseBase"}
+    b = {"ok": skip, "raise": rz, "ort_fail": {"t": "raise"},
          "toggle": {"t": "set", "b": not inside},
          "set_same": {"t": "set", "b": inside},
          "toggle_raise": {"t": "seq", "a": {"t": "set", "b": not inside}, "b": rz}}[body]
     if case["api"] == "allclose":
-        # fn raising is caught inside _run_allclose ("Failed to evaluate JAX function")
+        # fn raising an Exception is caught inside _run_allclose ("Failed to evaluate JAX function");
+        # a BaseException outside Exception is not
         if body in ("raise", "toggle_raise"):
             b = {"t": "catch", "body": b}
         prog = {"t": "tmp", "en": en, "body": b}
@@ -669,41 +717,140 @@ def x64_prog(case: dict) -> dict:
     return {"op": "x64", "flag": flag, "prog": prog}
 
 
-def x64_real(case: dict, real: Real) -> tuple[bool, bool]:
-    """(flag after, did the call raise?) on the real code; the flag is reset afterwards."""
+class Injector:
+    """Wraps every plain function living in the namespaces of jax2onnx.user_interface and of the jax2onnx
+    modules it imports functions from (by whatever name: nothing here depends on private names); the
+    `at`-th call of any of them raises `exc` right before / right after the call.  `exc=None`: count only."""
+
+    def __init__(self, ui, exc: Optional[type] = None, at: int = -1, when: str = "before"):
+        import sys
+        import types
+        self.exc, self.at, self.when = exc, at, when
+        self.count, self.fired, self.saved = 0, None, []
+        mods = {ui.__name__: ui}
+        for v in list(vars(ui).values()):
+            if isinstance(v, types.FunctionType) and (v.__module__ or "").startswith("jax2onnx") \
+                    and v.__module__ in sys.modules:
+                mods[v.__module__] = sys.modules[v.__module__]
+        self.mods = list(mods.values())
+        self.types = types
+
+    def _wrap(self, f, label):
+        import functools
+        inj = self
+
+        @functools.wraps(f)
+        def w(*a, **k):
+            i = inj.count
+            inj.count += 1
+            if inj.exc is not None and i == inj.at and inj.when == "before":
+                inj.fired = label
+                raise inj.exc()
+            r = f(*a, **k)
+            if inj.exc is not None and i == inj.at and inj.when == "after":
+                inj.fired = label
+                raise inj.exc()
+            return r
+        return w
+
+    def __enter__(self):
+        for m in self.mods:
+            for name, v in list(vars(m).items()):
+                if isinstance(v, self.types.FunctionType) and (v.__module__ or "").startswith("jax2onnx"):
+                    self.saved.append((m, name, v))
+                    setattr(m, name, self._wrap(v, f"{v.__module__}.{v.__qualname__}"))
+        return self
+
+    def __exit__(self, *a):
+        for m, name, v in self.saved:
+            setattr(m, name, v)
+        self.saved = []
+        return False
+
+
+def x64_real(case: dict, real: Real) -> tuple[bool, str, dict]:
+    """(flag after, how the call was left: normal|exc|base, info) on the real code; the flag is reset
+    afterwards.  `at: fn` → the event happens inside fn; `at: {"call": k, "when": …}` → `exc` is raised
+    at the k-th call of a jax2onnx function during the API call (Injector)."""
     import jax
     import jax.numpy as jnp
     start = bool(jax.config.jax_enable_x64)
     flag, en, body = case["flag"], case["en"], case["body"]
-    raised = False
+    exc_cls = EXC[case["exc"]] if case.get("exc") else RuntimeError
+    at = case.get("at", "fn")
+    err: Optional[BaseException] = None
+    info: dict = {}
     try:
         jax.config.update("jax_enable_x64", flag)
 
         def fn(x):
-            if body in ("toggle", "toggle_raise"):
-                jax.config.update("jax_enable_x64", not bool(jax.config.jax_enable_x64))
-            if body == "set_same":
-                jax.config.update("jax_enable_x64", bool(jax.config.jax_enable_x64))
-            if body in ("raise", "toggle_raise"):
-                raise RuntimeError("boom")
+            if at == "fn":
+                if body in ("toggle", "toggle_raise"):
+                    jax.config.update("jax_enable_x64", not bool(jax.config.jax_enable_x64))
+                if body == "set_same":
+                    jax.config.update("jax_enable_x64", bool(jax.config.jax_enable_x64))
+                if body in ("raise", "toggle_raise"):
+                    raise exc_cls("boom") if exc_cls is not SystemExit else SystemExit(3)
             return jnp.sin(x)
 
-        try:
-            if case["api"] == "allclose":
-                if body == "ort_fail":
-                    path = os.path.join(real.dir, "does_not_exist.onnx")
-                else:
-                    path = real.const_model([np.sin(np.zeros((1,), np.float32))])
-                real.allclose(fn, path, real.x, enable_double_precision=en)
+        if at == "fn":
+            inj = Injector(real.ui)            # not entered: nothing is wrapped
+            ctx = None
+        else:
+            inj = Injector(real.ui, None if at.get("count_only") else exc_cls, at.get("call", -1),
+                           at.get("when", "before"))
+            ctx = inj
+        path = None
+        if case["api"] == "allclose":
+            if body == "ort_fail":
+                path = os.path.join(real.dir, "does_not_exist.onnx")
             else:
-                from jax2onnx import to_onnx
-                to_onnx(fn, [(1,)], enable_double_precision=en)
-        except Exception:
-            raised = True
+                path = real.const_model([np.sin(np.zeros((1,), np.float32))])
+        try:
+            if ctx is not None:
+                ctx.__enter__()
+            try:
+                if case["api"] == "allclose":
+                    real.allclose(fn, path, real.x, enable_double_precision=en)
+                else:
+                    from jax2onnx import to_onnx
+                    to_onnx(fn, [(1,)], enable_double_precision=en)
+            finally:
+                if ctx is not None:
+                    ctx.__exit__(None, None, None)
+        except BaseException as e:  # noqa: BLE001 - every exit of the call is an observation
+            if isinstance(e, (MemoryError, RecursionError)):
+                raise
+            err = e
         after = bool(jax.config.jax_enable_x64)
+        info = {"calls": inj.count, "fired": inj.fired, "exception": type(err).__name__ if err else None}
     finally:
         jax.config.update("jax_enable_x64", start)
-    return after, raised
+    return after, exit_kind(err), info
+
+
+def x64_injection_cases(rng: common.Rng, real: Real, thorough: bool) -> list[dict]:
+    """A BaseException arriving at the k-th call of a jax2onnx function inside allclose / to_onnx (before
+    and after the call returns): every k for allclose, a seeded sample for to_onnx."""
+    out = []
+    for api in ("allclose", "to_onnx"):
+        probe = {"api": api, "flag": False, "en": True, "body": "ok", "exc": None,
+                 "at": {"count_only": True}}
+        _, _, info = x64_real(probe, real)
+        n = int(info["calls"])
+        combos = [(False, True), (True, False)] + ([(False, False), (True, True)] if thorough else [])
+        for flag, en in combos:
+            if api == "allclose":
+                ks = list(range(n))
+            else:
+                ks = sorted(set([0, 1, n - 1, n // 2] + [rng.randint(0, n - 1) for _ in range(2 if not thorough else 10)]))
+            for k in ks:
+                if k < 0 or k >= n:
+                    continue
+                when = "before" if rng.chance(0.6) else "after"
+                out.append({"api": api, "flag": flag, "en": en, "body": "ok", "exc": rng.choice(BASE_EXC),
+                            "at": {"call": k, "when": when}, "calls_in_dry_run": n})
+    return out
 
 
 # ----------------------------------------------------------------------------- programs (real exports)
@@ -812,6 +959,329 @@ def program_cases(chk: Check, rng: common.Rng, real: Real, thorough: bool) -> tu
     add(ident(("b", "a")), "feed/param-by-name-swapped-wiring", fn=lambda a, b=None: (a, b), xs=(xa,),
         params={"b": xb}, feeds={"a": xa, "b": xb})
     return lines, recs
+
+
+# ----------------------------------------------------------------------------- feed construction
+
+ONNX_T = {"f32": 1, "u8": 2, "i8": 3, "u16": 4, "i16": 5, "i32": 6, "i64": 7, "bool": 9, "f16": 10, "f64": 11,
+          "u32": 12, "u64": 13}
+# dtypes jax keeps as they are with x64 disabled (fn must receive the very values that were given)
+GIVEN_KINDS = ["f32", "i32", "u8", "bool", "f16", "i8", "i16"]
+DECLARED_KINDS = ["f32", "f32", "i32", "f64", "i64", "u8", "bool", "f16", "i16", "i8"]
+
+
+def model_tensor_str(a: np.ndarray) -> str:
+    """a tensor in the notation of the driver's `showTn`"""
+    a = np.asarray(a)
+    kind = KIND_OF[a.dtype]
+    vals = []
+    for v in a.reshape(-1):
+        e = enc_el(v, kind)
+        vals.append(",".join(e) if isinstance(e, list) else f"{e},0")
+    return f"{kind}:{'.'.join(str(d) for d in a.shape)}:{';'.join(vals)}"
+
+
+def feed_values(kind: str, rng: common.Rng, n: int, lossy_for: Optional[str]) -> np.ndarray:
+    """n values of dtype `kind`; with `lossy_for` = a declared dtype, at least one value that `astype(declared)`
+    changes (fraction, out of range, > 1 for bool)."""
+    v = rep_values(kind, rng, n)
+    if kind == "bool":
+        return v
+    if lossy_for is not None and n:
+        j = rng.randint(0, n - 1)
+        if klass(kind) == "float":
+            if lossy_for in INT_KINDS:
+                v[j] = NP[kind](rng.choice([5.75, 2.5, 7.25]))
+            elif lossy_for == "bool":
+                v[j] = NP[kind](0.5)
+            elif lossy_for == "f16":
+                v[j] = NP[kind](1.0 + 2.0 ** -12)
+        else:
+            if lossy_for == "bool":
+                v[j] = 2
+            elif lossy_for in ("u8", "i8") and kind in ("i32", "i16"):
+                v[j] = 300
+            elif lossy_for == "u8" and kind == "i8":
+                v[j] = -3
+            elif lossy_for == "f16" and kind == "i32":
+                v[j] = 2049
+            elif lossy_for == "f32" and kind == "i32":
+                v[j] = 16777217
+    return v
+
+
+def feed_cases(rng: common.Rng, thorough: bool) -> list[dict]:
+    out = []
+    names_pool = ["a", "b", "c", "x0", "in_1", "y"]
+    n_cases = 28 if not thorough else 160
+    for ci in range(n_cases):
+        n = rng.choice([1, 2, 2, 3, 3])
+        names = rng.sample(names_pool, n)
+        fam = rng.choice(["same", "same", "widen", "lossy", "lossy", "count"])
+        metas, given = [], []
+        for name in names:
+            dk = rng.choice(DECLARED_KINDS)
+            if fam in ("same", "count"):
+                gk = dk if dk in GIVEN_KINDS else rng.choice(["f32", "i32"])
+                if gk != dk:       # f64 / i64 graph input: a value-preserving widening
+                    gk = "f32" if dk == "f64" else "i32"
+            elif fam == "widen":
+                gk = {"f64": "f32", "i64": "i32", "f32": "f16", "i32": rng.choice(["i16", "u8", "bool"]),
+                      "i16": rng.choice(["i8", "u8"]), "f16": "u8"}.get(dk, dk)
+            else:
+                gk = rng.choice([g for g in GIVEN_KINDS if g != dk])
+            shape = rng.choice([(1,), (2,), (3,)])
+            lossy_for = dk if fam == "lossy" else None
+            vals = feed_values(gk, rng, int(np.prod(shape)), lossy_for).reshape(shape)
+            metas.append({"name": name, "k": dk, "shape": list(shape)})
+            given.append(vals)
+        is_param = [n > 1 and rng.chance(0.4) for _ in names]
+        if all(is_param):
+            is_param[rng.randint(0, n - 1)] = False
+        xs = [g for g, p in zip(given, is_param) if not p]
+        params = [(nm, g) for nm, g, p in zip(names, given, is_param) if p]
+        if rng.chance(0.5):
+            params = list(reversed(params))     # keyword order must not matter
+        if fam == "count":
+            if rng.chance(0.5) and xs:
+                xs = xs[:-1]
+            else:
+                xs = xs + [np.array([9.0], np.float32)]
+        out.append({"tag": f"feed/{fam}/{ci}", "metas": metas, "xs": xs, "params": params})
+    return out
+
+
+def feed_line(c: dict, rtol: float = 0.0, atol: float = 0.0) -> str:
+    return json.dumps({"op": "feed", "rtol": "0/1", "atol": "0/1",
+                       "metas": [{"name": m["name"], "k": m["k"]} for m in c["metas"]],
+                       "xs": [enc_tensor(x) for x in c["xs"]],
+                       "params": [{"name": n, "t": enc_tensor(v)} for n, v in c["params"]]})
+
+
+def feed_real(c: dict, real: Real, hide: bool = False) -> dict:
+    """Run the REAL allclose on an identity model with the declared graph inputs; `fn` returns what it
+    received, in graph-input order.  The feed dict ONNX Runtime's `run` receives is recorded by spying on
+    the public `onnxruntime.InferenceSession.run`.  `hide=True`: fn applies the dtype conversion itself
+    (`x.astype(declared)`) — a legitimate JAX function for which a coerced feed makes allclose say match."""
+    import onnx
+    import onnxruntime as ort
+    import jax.numpy as jnp
+    from onnx import helper
+    ins, outs, nodes = [], [], []
+    for i, m in enumerate(c["metas"]):
+        ins.append(helper.make_tensor_value_info(m["name"], ONNX_T[m["k"]], m["shape"]))
+        outs.append(helper.make_tensor_value_info(f"o{i}", ONNX_T[m["k"]], m["shape"]))
+        nodes.append(helper.make_node("Identity", [m["name"]], [f"o{i}"]))
+    g = helper.make_graph(nodes, "g", ins, outs)
+    mp = helper.make_model(g, opset_imports=[helper.make_opsetid("", 21)])
+    mp.ir_version = 10
+    real.n += 1
+    path = os.path.join(real.dir, f"feed{real.n}.onnx")
+    onnx.save(mp, path)
+    order = [m["name"] for m in c["metas"]]
+    declared = {m["name"]: m["k"] for m in c["metas"]}
+
+    def fn(*a, **kw):
+        it = iter(a)
+        res = []
+        for nm in order:
+            v = kw[nm] if nm in kw else next(it)
+            res.append(jnp.asarray(v).astype(NP[declared[nm]]) if hide else v)
+        return tuple(res)
+
+    seen: list = []
+    orig = ort.InferenceSession.run
+
+    def spy(self, output_names, input_feed, *args, **kw):
+        seen.append({k: np.asarray(v) for k, v in dict(input_feed).items()})
+        return orig(self, output_names, input_feed, *args, **kw)
+
+    res: dict = {"feeds": None, "ok": None, "msg": "", "raised": None}
+    ort.InferenceSession.run = spy
+    try:
+        try:
+            ok, msg = real.allclose(fn, path, list(c["xs"]), dict(c["params"]) or None, rtol=0.0, atol=0.0)
+            res["ok"], res["msg"] = bool(ok), str(msg)
+        except Exception as e:  # noqa: BLE001
+            res["raised"] = type(e).__name__
+            res["msg"] = str(e)[:200]
+    finally:
+        if "run" in vars(ort.InferenceSession):
+            del ort.InferenceSession.run
+        if ort.InferenceSession.run is not orig:
+            ort.InferenceSession.run = orig
+        try:
+            os.remove(path)
+        except OSError:
+            pass
+    if seen:
+        res["feeds"] = seen[-1]
+    return res
+
+
+def judge_feed(chk: Check, c: dict, r: dict, hidden: Optional[dict], ans: str, fstat: dict) -> None:
+    fstat["cases"] += 1
+    replay = {"feed_case": {"tag": c["tag"], "metas": c["metas"], "xs": [enc_tensor(x) for x in c["xs"]],
+                            "params": [[n, enc_tensor(v)] for n, v in c["params"]]},
+              "real": {k: (v if k != "feeds" else ({n: model_tensor_str(a) for n, a in v.items()} if v else None))
+                       for k, v in r.items()},
+              "model": ans, "how": "harness/props/c18.py::replay"}
+    if ans.startswith("error"):
+        fstat["model_error"] += 1
+        why = ans.split(" ")[1].split(":")[0]
+        if why in ("undefinedCast", "complexPack"):
+            fstat["outside_model"] += 1
+            return
+        # tooFew / tooMany: the real code must refuse as well (an Exception, never a verdict)
+        if r["raised"] is None:
+            chk.finding({"kind": "feed_count_not_refused", "why": why, "case": c["tag"]},
+                        f"allclose accepts {why} positional inputs and returns {r['ok']}", replay)
+            fstat["bad"] += 1
+        return
+    if r["raised"] is not None and r["feeds"] is None:
+        # the real code refused a binding the model accepts: conservative side
+        fstat["bad"] += 1
+        chk.violation(dict(replay, correspondence="real feed construction raises where the model binds"),
+                      no_failing_input=True)
+        return
+    shown, verdict = ans[3:].split(" | ")
+    want = dict(t.split("=", 1) for t in shown.split(" ")) if shown else {}
+    got = {n: model_tensor_str(a) for n, a in (r["feeds"] or {}).items()}
+    if r["feeds"] is not None and got != want:
+        fstat["bad"] += 1
+        chk.finding({"kind": "feed_binding_differs", "case": c["tag"]},
+                    "the feeds allclose hands to ONNX Runtime are not the model's binding of (inputs, input_params) "
+                    f"to the graph inputs: real {got} vs {want}", replay)
+        return
+    fstat["feeds_equal"] += int(r["feeds"] is not None)
+    v, agrees, same = verdict.split(" ")
+    if r["raised"] is not None:
+        fstat["ort_refused"] += 1           # ONNX Runtime itself rejected the feed (dtype it does not take)
+        return
+    if not v.startswith("unspecified") and (v == "match") != bool(r["ok"]):
+        fstat["bad"] += 1
+        if r["ok"] and agrees == "disagrees":
+            chk.finding({"kind": "unsound_match", "case": c["tag"], "expected_kind": "feed", "got_kind": "feed"},
+                        "allclose reports a match although the identity model returned other values than fn", replay)
+        else:
+            chk.violation(dict(replay, correspondence="verdict on the identity model differs from the model's"),
+                          no_failing_input=True)
+        return
+    # oracle of the feed part: ORT must have been run on the values that were given
+    if same == "coerced" and agrees == "disagrees":
+        fstat["value_changing_coercions"] += 1
+        if hidden is not None and hidden.get("ok"):
+            worst = None
+            it, kw = iter(c["xs"]), dict(c["params"])
+            for m in c["metas"]:
+                x = np.asarray(kw[m["name"]] if m["name"] in kw else next(it))
+                xk = KIND_OF[x.dtype]
+                with np.errstate(all="ignore"):
+                    changed = xk != m["k"] and not np.array_equal(x.astype(NP[m["k"]]).astype(np.float64),
+                                                                  x.astype(np.float64))
+                if changed:
+                    worst = cast_category(m["k"], xk)
+                    break
+            listed = chk.finding({"kind": "coerced_feed_changes_value", "cast": worst or "?"},
+                                 "allclose casts an input to the graph input's dtype before feeding ONNX Runtime "
+                                 "(value changed) and reports a match for fn = x.astype(dtype): the model was never "
+                                 "run on the given input", dict(replay, hidden_fn="fn casts its arguments itself",
+                                                                 hidden_real=[hidden.get("ok"), hidden.get("msg")]))
+            fstat["coerced_listed" if listed else "coerced_unlisted"] += 1
+
+
+# ----------------------------------------------------------------------------- T-tie: Gen/C18.lean
+
+CODES = list(NP.keys())          # code = index: bool, i8..i64, u8..u64, f16..f64, c64, c128
+GEN_MODS = ["J2O.GenProps.C18", "J2O.Props.C18Promo", "J2O.Props.C18Float", "J2O.Props.C18Exact"]   # everything that imports Gen/C18.lean
+
+
+def tabulate(real: "Real") -> dict:
+    """(1) numpy's can_cast("safe") / result_type on all 14x14 pairs of the ONNX tensor dtypes numpy knows;
+    (2) for every (expected dtype, model-output dtype) pair ONNX Runtime can produce: the dtypes of the
+    two operands the LIVE allclose hands to numpy's comparison and which comparison it uses — observed
+    by spying on the public `numpy.allclose` / `isclose` / `array_equal` / `array_equiv` during a real call (no
+    private name of /repo is involved; a row that cannot be observed is `none` and its obligation is vacuous)."""
+    promo = []
+    for a in CODES:
+        for b in CODES:
+            promo.append((CODES.index(a), CODES.index(b), bool(np.can_cast(NP[a], NP[b], casting="safe")),
+                          CODES.index(KIND_OF[np.dtype(np.result_type(NP[a], NP[b]))])))
+    seen: list = []
+    # public numpy entry points a tolerance / exact comparison can go through (last call wins)
+    spied = {"allclose": True, "isclose": True, "array_equal": False, "array_equiv": False}
+    orig = {n: getattr(np, n) for n in spied}
+
+    def make_spy(name, tol):
+        f = orig[name]
+
+        def spy(a, b, *args, **kw):
+            try:
+                seen.append((np.asarray(a).dtype, np.asarray(b).dtype, tol))
+            except Exception:  # noqa: BLE001
+                pass
+            return f(a, b, *args, **kw)
+        return spy
+
+    spies = {n: make_spy(n, tol) for n, tol in spied.items()}
+
+    operand = []
+    for ek in CODES:
+        for gk in CODES:
+            row = None
+            if gk not in CPLX_KINDS:
+                e = np.ones((1,), NP[ek])
+                g = np.ones((1,), NP[gk])
+                del seen[:]
+                for n, f in spies.items():
+                    setattr(np, n, f)
+                try:
+                    ok, _ = real.run([e], [g], 1e-3, 1e-5, [])
+                except Exception:
+                    ok = None                    # ORT cannot produce this dtype from a Constant node
+                finally:
+                    for n, f in orig.items():
+                        setattr(np, n, f)
+                if ok is not None and seen and seen[-1][0] in KIND_OF and seen[-1][1] in KIND_OF:
+                    l, r, tol = seen[-1]
+                    row = (CODES.index(KIND_OF[l]), CODES.index(KIND_OF[r]), tol)
+            operand.append((CODES.index(ek), CODES.index(gk), row))
+    return {"promo": promo, "operand": operand}
+
+
+def generate(tabs: Optional[dict] = None) -> dict:
+    if tabs is None:
+        real = Real()
+        try:
+            tabs = tabulate(real)
+        finally:
+            real.close()
+
+    def prow(r):
+        return f"({r[0]}, {r[1]}, {common.lean_bool(r[2])}, {r[3]})"
+
+    def orow(r):
+        o = "none" if r[2] is None else f"some ({r[2][0]}, {r[2][1]}, {common.lean_bool(r[2][2])})"
+        return f"({r[0]}, {r[1]}, {o})"
+
+    src = f"""/- GENERATED by harness/props/c18.py from numpy and the live /repo on every run — do not edit. -/
+namespace J2O.Gen.C18
+
+/-- dtype codes: {', '.join(f'{i}={k}' for i, k in enumerate(CODES))} -/
+def codes : Nat := {len(CODES)}
+
+/-- (a, b, `np.can_cast(a, b, casting="safe")`, code of `np.result_type(a, b)`) on all pairs -/
+def promoTable : List (Nat × Nat × Bool × Nat) := {common.lean_list(map(prow, tabs['promo']), 6)}
+
+/-- (expected dtype, model-output dtype, observed (dtype of lhs, dtype of rhs, tolerance comparison?) that the
+    live `allclose` handed to `numpy.allclose` (true) / `numpy.array_equal` (false)); `none` = not observable
+    (ONNX Runtime cannot produce that dtype from a Constant node) -/
+def operandTable : List (Nat × Nat × Option (Nat × Nat × Bool)) := {common.lean_list(map(orow, tabs['operand']), 4)}
+
+end J2O.Gen.C18
+"""
+    common.write_if_changed(common.LEAN / "J2O/Gen/C18.lean", src)
+    return tabs
 
 
 # ----------------------------------------------------------------------------- the check
@@ -950,14 +1420,42 @@ def promotion_table():
     return lines, finish
 
 
+def chk_has_findings(chk: Check) -> bool:
+    """did this run print a VIOLATION already?"""
+    for attr in ("violations", "n_violations"):
+        v = getattr(chk, attr, None)
+        if isinstance(v, int):
+            return v > 0
+        if isinstance(v, (list, tuple)):
+            return len(v) > 0
+    return False
+
+
 def run(chk: Check) -> None:
     rng = common.Rng(chk.seed)
     thorough = chk.tier == "thorough"
-    proved = chk.prove(MODS, checker=thorough)
+    # T-tie: regenerate Gen/C18.lean from numpy and the live code, then build everything
+    real = Real()
+    try:
+        tabs = generate(tabulate(real))
+    finally:
+        real.close()
+    chk.info("gen_tables", {"promo_rows": len(tabs["promo"]), "operand_rows": len(tabs["operand"]),
+                            "operand_rows_observed": sum(1 for r in tabs["operand"] if r[2] is not None)})
+    proved = chk.prove(MODS + GEN_MODS, checker=thorough)
+    gen_broken = False
     if not proved:
-        # the theorems are about the hand-written model only (no generated sources): a broken build
-        # is an infrastructure problem of the check, not a statement about /repo
-        raise RuntimeError(f"Lean obligations of C18 do not build: {getattr(chk, 'broken', [])}")
+        # the hand-written modules contain no generated source: if THEY do not build it is an infrastructure
+        # problem of the check; if only the obligations about the regenerated tables break, the live code
+        # (or numpy) left the model: go on and search the real code for a failing input
+        try:
+            common.lean_build(MODS)
+        except common.LeanBuildError:
+            raise RuntimeError(f"Lean obligations of C18 do not build: {getattr(chk, 'broken', [])}")
+        if not all(str(b).startswith("J2O.") for b in getattr(chk, "broken", [])):
+            raise RuntimeError(f"Lean audit of C18 failed: {getattr(chk, 'broken', [])}")
+        gen_broken = True
+        chk.log("obligations about the regenerated tables are BROKEN: " + "; ".join(getattr(chk, "broken", [])))
 
     # every request to the Lean driver is collected first and answered in ONE driver process
     requests: list[tuple[str, Any]] = []
@@ -1034,27 +1532,76 @@ def run(chk: Check) -> None:
                       r["exp"], r["got"], stats)
             requests.append((line, handle_p))
 
-        # ---- x64 flag
-        xstat = {"n": 0, "bad": 0}
-        for c in x64_cases(rng, thorough):
-            after, raised = x64_real(c, real)
+        # ---- feed construction: by-name / by-position binding and dtype coercion
+        fstat = {k: 0 for k in ["cases", "model_error", "outside_model", "feeds_equal", "ort_refused", "bad",
+                                "value_changing_coercions", "coerced_listed", "coerced_unlisted"]}
+        for c in feed_cases(rng, thorough):
+            r = feed_real(c, real)
+            hidden = feed_real(c, real, hide=True) if "/lossy/" in c["tag"] else None
 
-            def handle_x(ans: str, c=c, after=after, raised=raised) -> None:
-                m_after, m_raised = [s == "true" for s in ans.split(" ")]
+            def handle_f(ans: str, c=c, r=r, hidden=hidden) -> None:
+                if ans.startswith("bad"):
+                    raise RuntimeError(f"driver rejected feed case {c['tag']}: {ans}")
+                chk.count({"tag": c["tag"], "metas": c["metas"], "n_xs": len(c["xs"]),
+                           "params": [n for n, _ in c["params"]], "real_ok": r["ok"], "raised": r["raised"],
+                           "model": ans[:200]}, nontrivial=True)
+                judge_feed(chk, c, r, hidden, ans, fstat)
+            requests.append((feed_line(c), handle_f))
+
+        # ---- x64 flag: events inside fn (every exception class incl. BaseException subclasses, toggles)
+        xstat = {"n": 0, "bad": 0, "base_exits": 0, "injected_calls": 0, "injection_not_fired": 0}
+
+        def x64_key(c: dict) -> dict:
+            key = {"kind": "x64_flag_not_restored", "api": c["api"], "body": c["body"],
+                   "flag": c["flag"], "enable_double_precision": c["en"]}
+            if c.get("exc") and c["exc"] != "RuntimeError":
+                key["exc"] = c["exc"]
+            if c.get("at", "fn") != "fn":
+                key["at"] = "call"
+            return key
+
+        for c in x64_cases(rng, thorough):
+            after, how, info = x64_real(c, real)
+
+            def handle_x(ans: str, c=c, after=after, how=how, info=info) -> None:
+                m_after, m_how = ans.split(" ")
+                m_after = m_after == "true"
                 xstat["n"] += 1
-                chk.count({"x64": c, "flag_after": after, "raised": raised, "model": ans},
+                xstat["base_exits"] += int(how == "base")
+                chk.count({"x64": c, "flag_after": after, "exit": how, "model": ans},
                           nontrivial=c["body"] != "ok")
                 if after != c["flag"]:
                     xstat["bad"] += 1
-                    chk.finding({"kind": "x64_flag_not_restored", "api": c["api"], "body": c["body"],
-                                 "flag": c["flag"], "enable_double_precision": c["en"]},
-                                f"{c['api']} leaves jax_enable_x64={after} (was {c['flag']})", {"x64_case": c})
-                elif (after, raised) != (m_after, m_raised):
+                    chk.finding(x64_key(c), f"{c['api']} leaves jax_enable_x64={after} (was {c['flag']}) when it is "
+                                f"left by {info.get('exception')} ({how}) raised inside fn", {"x64_case": c})
+                elif (after, how) != (m_after, m_how):
                     xstat["bad"] += 1
-                    chk.violation({"x64_case": c, "real": [after, raised], "model": ans,
+                    chk.violation({"x64_case": c, "real": [after, how], "model": ans,
                                    "correspondence": "x64 program model and real code disagree (flag restored)"},
                                   no_failing_input=True)
             requests.append((json.dumps(x64_prog(c)), handle_x))
+
+        # ---- x64 flag: a BaseException at the k-th call of any jax2onnx function inside the API call
+        for c in x64_injection_cases(rng, real, thorough):
+            after, how, info = x64_real(c, real)
+            prog = x64_prog(dict(c, body="ok", exc=None))
+            prog["inject"] = 0
+
+            def handle_i(ans: str, c=c, after=after, how=how, info=info) -> None:
+                m_after = ans.split(" ")[0] == "true"
+                xstat["injected_calls"] += 1
+                if info.get("fired") is None:
+                    xstat["injection_not_fired"] += 1     # call count differs between runs (caches): no observation
+                    return
+                chk.count({"x64_injection": c, "fired": info["fired"], "flag_after": after, "exit": how},
+                          nontrivial=True)
+                xstat["base_exits"] += int(how == "base")
+                if after != c["flag"] or m_after != c["flag"]:
+                    xstat["bad"] += 1
+                    chk.finding(x64_key(c), f"{c['api']} leaves jax_enable_x64={after} (was {c['flag']}) when "
+                                f"{c['exc']} is raised {c['at']['when']} call #{c['at']['call']} ({info['fired']})",
+                                {"x64_case": c, "fired": info["fired"]})
+            requests.append((json.dumps(prog), handle_i))
     finally:
         real.close()
 
@@ -1065,6 +1612,12 @@ def run(chk: Check) -> None:
         h(ans)
     chk.info("case_families", tags)
     chk.info("x64_cases", xstat)
+    chk.info("feed_cases", fstat)
+    if gen_broken and not chk_has_findings(chk):
+        chk.violation({"broken": getattr(chk, "broken", []),
+                       "what": "obligations about the regenerated promotion / operand tables (GenProps/C18.lean) do "
+                               "not hold for the live code, but no generated case shows a wrong verdict"},
+                      name="obligation-broken", no_failing_input=True)
     chk.info("real_allclose_raised_instead_of_returning", real.raised)
 
     chk.info("tie", stats)
@@ -1077,15 +1630,19 @@ def run(chk: Check) -> None:
         "tolerances are non-negative",
         "complex modulus comparison is written sqrt-free (proved equivalent over the reals: modulusLe_iff_real)",
         "float->int casts of NaN/inf/out-of-range values are C-undefined: model answers 'unspecified'",
-        "jax.config.update itself does not raise",
+        "jax.config.update itself does not raise; no interrupt arrives inside the finally clause of "
+        "_temporary_x64 itself (injection points are call boundaries of jax2onnx functions and fn)",
     ]
     chk.coverage["rule"] = (
         "seeded systematic perturbations of matching (expected, got) pairs: single element just inside/outside "
         "the tolerance on both sides, off-by-one integers, dtype(-class) changes with equal and moved values, "
         "lossy casts, shape changes incl. broadcast-compatible ones, output count/order changes, NaN/inf "
         "placement, NCHW flag, complex repack, perturbed copies of a real export, feed wiring; every case is "
-        "run through the real allclose and the Lean driver. non-trivial = not an identity pair; distinct = "
-        "distinct (case, verdicts) records")
+        "run through the real allclose and the Lean driver. Feed construction: seeded identity models with 1-3 "
+        "graph inputs (names, order, keyword subset, declared vs given dtype, positional count) - the feed dict "
+        "ONNX Runtime receives vs bindFeeds. x64: fn events x every exception class incl. BaseException "
+        "subclasses, and a BaseException at every call boundary inside allclose / a sample inside to_onnx. "
+        "non-trivial = not an identity pair; distinct = distinct (case, verdicts) records")
     chk.coverage["exhaustive"] = False
 
 
@@ -1096,10 +1653,10 @@ def replay(path: str) -> int:
     if "x64_case" in rep:
         real = Real()
         try:
-            after, raised = x64_real(rep["x64_case"], real)
+            after, how, info = x64_real(rep["x64_case"], real)
         finally:
             real.close()
-        print("flag after:", after, "raised:", raised)
+        print("flag after:", after, "exit:", how, info)
         return 1 if after != rep["x64_case"]["flag"] else 0
     def dec(t):
         dt = NP[t["k"]]
@@ -1112,6 +1669,29 @@ def replay(path: str) -> int:
             return float(Fraction(v)) if t["k"] in FLT_KINDS + CPLX_KINDS else int(Fraction(v))
         return np.array([one(v) for v in t["v"]], dtype=dt).reshape(t["s"])
 
+    if "feed_case" in rep:
+        fc = rep["feed_case"]
+        c = {"tag": fc["tag"], "metas": fc["metas"], "xs": [dec(t) for t in fc["xs"]],
+             "params": [(n, dec(t)) for n, t in fc["params"]]}
+        real = Real()
+        try:
+            r = feed_real(c, real)
+            hidden = feed_real(c, real, hide=True)
+        finally:
+            real.close()
+        ans = common.run_driver("C18", [feed_line(c)])[0]
+        got = {n: model_tensor_str(a) for n, a in (r["feeds"] or {}).items()}
+        print("given: xs =", [model_tensor_str(x) for x in c["xs"]], "params =",
+              {n: model_tensor_str(v) for n, v in c["params"]})
+        print("fed to ONNX Runtime:", got, "| allclose(fn = identity):", r["ok"], r["raised"], r["msg"][:100])
+        print("allclose(fn = x.astype(declared dtype)):", hidden["ok"], hidden["msg"][:100])
+        print("model:", ans)
+        if ans.startswith("error"):
+            return 1 if r["raised"] is None else 0
+        want = dict(t.split("=", 1) for t in ans[3:].split(" | ")[0].split(" ") if t)
+        if r["feeds"] is not None and got != want:
+            return 1
+        return 1 if (hidden["ok"] and ans.endswith("disagrees coerced")) else 0
     if "overwrite_history" in rep:
         real = Real()
         bad = 0
